@@ -430,6 +430,9 @@ def dims_jobs():
         (DIMS, dim_hdr("GeoNum", "GeometryCollection", "dimensions", "Dimensions"), "geometryCollectionDimensions",
          "(dimsFn : Geom → Dim) (gs : List Geom)", "Dim", {".max": "(Dim.max {0} {1})"}, [("self", "gs")], [],
          dict(D, accessors={"dimensions": "(dimsFn {})"}, mut_types={"max": "Dim"})),
+        (DIMS, dim_hdr("GeoNum", "GeometryCollection", "boundary_dimensions", "Dimensions"), "geometryCollectionBoundaryDimensions",
+         "(bdimsFn : Geom → Dim) (gs : List Geom)", "Dim", {".max": "(Dim.max {0} {1})"}, [("self", "gs")], [],
+         dict(D, accessors={"boundary_dimensions": "(bdimsFn {})"}, mut_types={"max": "Dim"})),
         (DIMS, dim_hdr("CoordNum", "Rect", "dimensions", "Dimensions"), "rectDimensions", "(mn mx : Pt)", "Dim", {},
          [("self.min", "mn"), ("self.max", "mx")], [], dict(D, accessors={"min": "{}.min", "max": "{}.max"})),
         (DIMS, dim_hdr("CoordNum", "Rect", "boundary_dimensions", "Dimensions"), "rectBoundaryDimensions", "(mn mx : Pt)", "Dim", {},
